@@ -337,22 +337,20 @@ func runAPI(t *testing.T, rc *core.RunCtx) {
 						// The call's 30-second budget holds four attempts
 						// (2, 4, 8 and 16 seconds): did all of them go to
 						// nodes that do not serve this block truthfully?
-						total, liarsOnly := 0, true
+						// (Requests of an overlapping call for the same block
+						// that went to a node serving it truthfully are not
+						// this call's attempts.)
+						liarAsks := 0
 						for _, p := range w.peers[1:] {
-							k := asked(p)
-							if k == 0 {
-								continue
-							}
-							total += k
 							kind := p.beh.BlockLieAll
 							if kk, ok := p.beh.BlockLie[c.blk.Hash]; ok {
 								kind = kk
 							}
-							if kind == blkHonest {
-								liarsOnly = false
+							if kind != blkHonest {
+								liarAsks += asked(p)
 							}
 						}
-						if total >= 4 && liarsOnly {
+						if liarAsks >= 4 {
 							why = "all-four-attempts-the-budget-allows-went-to-silent-or-lying-peers"
 						}
 					}
